@@ -8,4 +8,5 @@ INVARIANT IsMatching
 INVARIANT Optimal
 INVARIANT Progress
 INVARIANT MaxTwin
+INVARIANT DpTwin
 CHECK_DEADLOCK FALSE
